@@ -194,7 +194,7 @@ fn seed_for_state(state: u64) -> u64 {
 
 fn special_seeds() -> Vec<u64> {
     let q = u64::MAX / 48271;
-    vec![0, 1, 2, M - 1, M, M + 1, 2 * M, 1 << 32, q - 2, q - 1, q, q + 1, q + 2, 1_000_000_000_000_000, 1_700_000_000_000_000_000, 1 << 63, u64::MAX - 1, u64::MAX, 12345, 247665088]
+    vec![0, 1, 2, M - 1, M, M + 1, 2 * M, 1 << 32, q - 2, q - 1, q, q + 1, q + 2, 1_000_000_000_000_000, 1_700_000_000_000_000_000, 1 << 63, u64::MAX - 1, u64::MAX, 12345, 247665088, 12910048, 570515015, 1922112213, 833985187]
 }
 
 fn check_special(seed: u64, rep: &mut Report) {
@@ -235,6 +235,22 @@ fn check_special(seed: u64, rep: &mut Report) {
                 format!("create({}).generate(0,1): {}", seed, e),
                 &case,
             );
+        }
+    }
+    // degenerate, negative and very wide intervals
+    for (min, max) in [(0.3f32, 0.3f32), (-3.0, -1.0), (1.0e-3, 1.0e3), (-1.0e30, 1.0e30), (-0.0, 0.0), (5.0, 5.000001)] {
+        rep.transitions += 1;
+        let r = guard(|| {
+            let mut g = Generator::create(seed);
+            g.generate(min, max)
+        });
+        match r {
+            Ok(v) => {
+                if !(v >= min && v <= max) {
+                    rep.violate("C18 generate result outside [min,max]", format!("create({}).generate({:e}, {:e}) = {:e}", seed, min, max, v), &Kv::new().put("op", "generate").put("seed", seed).put("min", min).put("max", max));
+                }
+            }
+            Err(e) => rep.violate("C18 generate panics", format!("create({}).generate({:e},{:e}): {}", seed, min, max, e), &case),
         }
     }
     // shuffle from this seed
